@@ -63,7 +63,7 @@ class NewStatementStart:
 # reachable from Output.tables_dict, including the table dicts already appended to the result, which the handlers
 # update in place).  What is proved for scripts of ANY length: order, single dispatch, nothing skipped or applied twice,
 # grouping applied exactly when asked for.  What the handlers do to one table is the subject of C04 / C13 contracts.
-from contracts.lib import opaque, seq_filter, seq_fold, seq_map
+from contracts.lib import ghost_call, opaque, seq_filter, seq_fold, seq_map
 
 
 def is_alter_or_index(st):
@@ -162,3 +162,90 @@ class FormatInOrder:
         if self_.group_by_type:
             self_.final_result = opaque("grouped", self_.final_result)
         return self_.final_result
+
+
+# ---------------------------------------------------------------------------------------------------------------------
+# The line machine (Parser.process_line / process_statement / add_line_to_statement, inlined together with the two
+# line predicates above): which texts are handed to the statement parser, and when.  Abstract here: the comment scanner
+# (pre_process_line: the contract starts from the cleaned line), the SET handler's record (process_set), the lexer reset
+# and the statement parse itself - each call is a ghost event; `parse` records the statement text at the call.
+# Domain: no SET statement pending (set_line None) - the SET path has its own contract (C13 ProcessSet).
+TEXT_LINE = r"[!-~]([ -~]*[!-~])?"          # a cleaned non-empty line: printable, no blank at either end
+OPEN_STATEMENT = r"[!-:<-~]([ -~]*[!-:<-~])?"   # text collected so far: non-empty, does not end with ';'
+
+
+def starts_statement(line):
+    return re.fullmatch(r"(ALTER|CREATE|DROP|SET) [ -~]*", line.upper()) is not None
+
+
+@contract
+class LineMachine:
+    """Summaries used for the two line predicates (each has its own contract above: SkipWords, NewStatementStart):
+    uninterpreted functions of the line / of (statement so far, line)."""
+    fn = "parser.Parser.process_line"
+    props = ["C03", "C05", "C08", "C18", "C01"]
+    abstract_callees = True
+    stub_calls = {"parser.Parser.pre_process_line": "clean-line", "parser.Parser.process_set": "set-record",
+                  "parser.Parser.set_default_flags_in_lexer": "reset-lexer", "parser.Parser.parse_statement": ("parse", ["statement"]),
+                  "parser.Parser.check_line_on_skip_words": "stub_skip", "parser.Parser.check_new_statement_start": "stub_new",
+                  "parser.Parser.parse_set_statement": "stub_set_idle"}
+    cases = {"%s, %s" % (a, b): dict(open=(a == "statement open"), empty=(b == "empty line"))
+             for a in ("no statement open", "statement open") for b in ("empty line", "line with text")}
+
+    def stub_skip(case, self_):
+        self_.skip = opaque("is-skip-line", self_.line)
+        return self_.skip
+
+    def stub_new(case, self_, line):
+        self_.new_statement = opaque("starts-new-statement", self_.statement, line)
+        return self_.new_statement
+
+    def stub_set_idle(case, self_):
+        # domain of this contract: no SET statement pending and the line is not a SET line - then the SET handler
+        # changes nothing (contract SetHandlerIdle below)
+        return None
+
+    def build(G, case):
+        st = G.str("statement", OPEN_STATEMENT, "CREATE TABLE t (a int") if case["open"] else None
+        line = "" if case["empty"] else G.str("line", TEXT_LINE, "b int);")
+        p = G.parser(lexer=lexer_flags(G), line=line, statement=st, set_line=None, set_was_in_line=False,
+                     skip=G.bool("skip0"), new_statement=G.bool("ns0"), set_statement=parser_constant("set_statement"))
+        return dict(args=[p, G.bool("last_line")])
+
+    def spec(case, self_, last_line):
+        ghost_call("clean-line", self_)
+        line = self_.line
+        self_.skip = opaque("is-skip-line", line)
+        self_.new_statement = opaque("starts-new-statement", self_.statement, line)
+        ends = line.endswith(";")
+        if line != "" and not self_.skip and not self_.new_statement:
+            self_.statement = line if self_.statement is None else self_.statement + " " + line
+        if (ends or self_.new_statement) and self_.statement:
+            if self_.statement.endswith(";"):
+                self_.statement = self_.statement[:-1]
+        elif last_line and not self_.skip:
+            return None                      # the statement goes on: nothing is parsed yet
+        ghost_call("reset-lexer", self_)
+        if self_.statement:
+            ghost_call("parse", self_.statement)
+        self_.statement = line if self_.new_statement else None
+
+
+@contract
+class SetHandlerIdle:
+    """with no SET statement pending, a line that does not begin with `SET ` (any letter case) leaves the SET handler's
+    state untouched and produces no record"""
+    fn = "parser.Parser.parse_set_statement"
+    props = ["C03", "C05", "C08", "C18", "C01"]
+    stub_calls = {"parser.Parser.process_set": "set-record"}
+    cases = {"any line": dict(pat=r"[ -~]*"), "upper-case line": dict(pat=r"[ -`{-~]*")}
+
+    def build(G, case):
+        p = G.parser(lexer=lexer_flags(G), line=G.str("line", case["pat"], "b int);"), set_line=None, set_was_in_line=False, set_statement=parser_constant("set_statement"))
+        return dict(args=[p])
+
+    def requires(case, self_):
+        return re.fullmatch(r"SET [ -~]*", self_.line.upper()) is None
+
+    def spec(case, self_):
+        return None
